@@ -117,8 +117,10 @@ func nlAfter(stmts []Node, comments map[Node]string) map[int]bool {
 			beforeFuncIdx := accums[i+1].idx - 1
 			indices[beforeFuncIdx] = true
 		case i+2 < length && accums[i+1].stmtType == "comment" && accums[i+2].stmtType == "func":
-			// add NL before comments of func decl (after stmt or other func decl)
-			indices[accum.idx] = true
+			// add NL before comments of func decl (after the last stmt of
+			// the run or other func decl), i.e. directly before the comments
+			beforeCommentIdx := accums[i+1].idx - 1
+			indices[beforeCommentIdx] = true
 		}
 	}
 	return indices
